@@ -82,6 +82,7 @@ func (e *Env) queryVariants(method string) []Req {
 			r.Query["db"] = db
 		}
 		out = append(out, r)
+		n = e.next() // no two variants share a number
 		return &out[len(out)-1]
 	}
 	for _, db := range dbs {
@@ -101,27 +102,38 @@ func (e *Env) queryVariants(method string) []Req {
 		mk("show_tag_values", db, "SHOW TAG VALUES WITH KEY = host", "read:"+db)
 		mk("show_rps", "", "SHOW RETENTION POLICIES ON "+db, "read:"+db)
 		// write-into
+		// (every variant that owns scratch objects gets its own number: the snapshot ignores scratch objects of other numbers)
+		n = e.next()
 		tgt := fmt.Sprintf("into_%d", n)
-		r = mk("select_into", db, fmt.Sprintf("SELECT v INTO %s.autogen.%s FROM %s.autogen.probe", db, tgt, db), "rw:"+db+":"+db)
-		r = mk("select_into_cross", db, fmt.Sprintf("SELECT v INTO %s.autogen.%sx FROM %s.autogen.probe", o, tgt, db), "rw:"+db+":"+o)
+		mk("select_into", db, fmt.Sprintf("SELECT v INTO %s.autogen.%s FROM %s.autogen.probe", db, tgt, db), "rw:"+db+":"+db)
+		n = e.next()
+		tgt = fmt.Sprintf("into_%d", n)
+		mk("select_into_cross", db, fmt.Sprintf("SELECT v INTO %s.autogen.%sx FROM %s.autogen.probe", o, tgt, db), "rw:"+db+":"+o)
 		// multi-statement: an allowed read followed by something the reader may not do
+		n = e.next()
 		victim := fmt.Sprintf("victim_%d_%s", n, db)
 		r = mk("multi_read_then_ddl", db, "SELECT count(v) FROM probe; DROP DATABASE "+victim, "admin")
 		r.Setup = []Req{qReq("", "CREATE DATABASE "+victim)}
 		r.Cleanup = []Req{qReq("", "DROP DATABASE "+victim)}
 		// data-level DDL
+		n = e.next()
 		vm := fmt.Sprintf("vm_%d", n)
 		if db == "db1" { // on the scratch database: the background removal of a measurement disturbs reads of its database for a moment
 			r = mk("ddl_drop_measurement", scratchDB, "DROP MEASUREMENT "+vm, "admin")
 			r.Setup = []Req{writeReq(scratchDB, fmt.Sprintf("%s,host=a v=1 %d", vm, tsBase))}
 		}
-		r = mk("ddl_drop_series", db, "DROP SERIES FROM ctldel WHERE host = 'zz'", "write:"+db)
+		mk("ddl_drop_series", db, "DROP SERIES FROM ctldel WHERE host = 'zz'", "write:"+db)
+		n = e.next()
 		rp := fmt.Sprintf("rp_%d", n)
 		r = mk("ddl_create_rp", "", fmt.Sprintf("CREATE RETENTION POLICY %s ON %s DURATION 2d REPLICATION 1", rp, db), "admin")
 		r.Cleanup = []Req{qReq("", fmt.Sprintf("DROP RETENTION POLICY %s ON %s", rp, db))}
+		n = e.next()
+		rp = fmt.Sprintf("rp_%d", n)
 		r = mk("ddl_alter_rp", "", fmt.Sprintf("ALTER RETENTION POLICY %sa ON %s DURATION 3d", rp, db), "admin")
 		r.Setup = []Req{qReq("", fmt.Sprintf("CREATE RETENTION POLICY %sa ON %s DURATION 2d REPLICATION 1", rp, db))}
 		r.Cleanup = []Req{qReq("", fmt.Sprintf("DROP RETENTION POLICY %sa ON %s", rp, db))}
+		n = e.next()
+		rp = fmt.Sprintf("rp_%d", n)
 		r = mk("ddl_drop_rp", "", fmt.Sprintf("DROP RETENTION POLICY %sd ON %s", rp, db), "write:"+db)
 		r.Setup = []Req{qReq("", fmt.Sprintf("CREATE RETENTION POLICY %sd ON %s DURATION 2d REPLICATION 1", rp, db))}
 		r.Cleanup = []Req{qReq("", fmt.Sprintf("DROP RETENTION POLICY %sd ON %s", rp, db))}
@@ -130,9 +142,11 @@ func (e *Env) queryVariants(method string) []Req {
 		r.Cleanup = []Req{qReq("", fmt.Sprintf("REVOKE ALL ON %s FROM %s", db, uNop))}
 	}
 	// catalogue DDL
+	n = e.next()
 	nd := fmt.Sprintf("newdb_%d", n)
 	r := mk("ddl_create_database", "", "CREATE DATABASE "+nd, "admin")
 	r.Cleanup = []Req{qReq("", "DROP DATABASE "+nd)}
+	n = e.next()
 	vd := fmt.Sprintf("victimdb_%d", n)
 	r = mk("ddl_drop_database", "", "DROP DATABASE "+vd, "admin")
 	r.Setup = []Req{qReq("", "CREATE DATABASE "+vd)}
@@ -145,13 +159,17 @@ func (e *Env) queryVariants(method string) []Req {
 	mk("show_subscriptions", "", "SHOW SUBSCRIPTIONS", "admin")
 	mk("show_configs", "", "SHOW CONFIGS", "admin")
 	// user administration
+	n = e.next()
 	nu := fmt.Sprintf("newuser_%d", n)
 	r = mk("user_create", "", fmt.Sprintf("CREATE USER %s WITH PASSWORD 'Fresh_Pass#%d'", nu, n), "admin")
 	r.Cleanup = []Req{qReq("", "DROP USER "+nu)}
+	n = e.next()
 	vu := fmt.Sprintf("victimuser_%d", n)
 	r = mk("user_drop", "", "DROP USER "+vu, "admin")
 	r.Setup = []Req{qReq("", fmt.Sprintf("CREATE USER %s WITH PASSWORD 'Victim_Pass#19'", vu))}
 	r.Cleanup = []Req{qReq("", "DROP USER "+vu)}
+	n = e.next()
+	vu = fmt.Sprintf("victimuser_%d", n)
 	r = mk("user_set_password", "", fmt.Sprintf("SET PASSWORD FOR %sp = 'Changed_Pass#%d'", vu, n), "admin")
 	r.Setup = []Req{qReq("", fmt.Sprintf("CREATE USER %sp WITH PASSWORD 'Victim_Pass#19'", vu))}
 	r.Cleanup = []Req{qReq("", "DROP USER "+vu+"p")}
